@@ -164,6 +164,10 @@ pub fn generate(rng: &mut Rng, property: &str, deep: bool) -> BScn {
     let p_toggle = if operator { on(rng, 0.06) } else { 0.0 };
     let p_reset = if operator { on(rng, 0.06) } else { 0.0 };
     let p_retarget = if operator && !cfg.selector { on(rng, 0.08) } else { 0.0 };
+    // the app clock may be paused or scaled (then Time::delta differs from the wall-clock delta)
+    let p_clock = on(rng, 0.06);
+    let mut clock_paused = false;
+    let mut clock_speed = 1u8;
     let p_key: f64 = if cfg.selector { *rng.pick(&[0.05, 0.15, 0.3]) } else { 0.0 };
     let jitter = on(rng, 0.5);
     let period_ns: u64 = if cfg.grid {
@@ -212,6 +216,20 @@ pub fn generate(rng: &mut Rng, property: &str, deep: bool) -> BScn {
             } else if just_ended && fault == "none" {
                 fault = "event_after_end";
             }
+        }
+        // app clock
+        if rng.chance(p_clock) {
+            if rng.chance(0.5) {
+                clock_paused = !clock_paused;
+                ops.push(BOp::PauseTime(clock_paused));
+            } else {
+                clock_speed = *rng.pick(&[0u8, 1, 2]);
+                ops.push(BOp::TimeSpeed(clock_speed));
+            }
+            fault = "app_clock";
+        } else if clock_paused && rng.chance(0.4) {
+            clock_paused = false;
+            ops.push(BOp::PauseTime(false));
         }
         // operator
         if rng.chance(p_toggle) {
@@ -301,8 +319,12 @@ pub fn generate(rng: &mut Rng, property: &str, deep: bool) -> BScn {
         });
         // bookkeeping
         let was_ended = ended;
-        if enabled && cur_tl.is_some() && !ended {
-            pos_ns += delta as u128;
+        if enabled && cur_tl.is_some() && !ended && !clock_paused {
+            pos_ns += match clock_speed {
+                0 => delta as u128 / 2,
+                2 => delta as u128 * 2,
+                _ => delta as u128,
+            };
             if let Some(Some(t)) = total.map(Some) {
                 if pos_ns as f64 / 1e9 >= t {
                     ended = true;
